@@ -393,6 +393,92 @@ def phases_independent(run, repo):
                       o2.module, f2)
 
 
+def organize(run, repo):
+    """organize_phases hands every phase exactly its species, the reactions any of its species takes part in and the
+    lateral interactions of its species, whatever the order of the species inside a reaction"""
+    m = repo.module(OM)
+    fn = m.functions.get('organize_phases')
+    if fn is None:
+        raise AnchorError(OM + '.organize_phases not found')
+    run.fn(OM + '.organize_phases')
+    kinds = {'gas': 'IdealGas', 'bulk': 'StoichSolid', 'terrace': 'InteractingInterface', 'step': 'InteractingInterface'}
+    sp_phase = [('H2', 'gas'), ('N2', 'gas'), ('PtB', 'bulk'), ('PtT', 'terrace'), ('HT', 'terrace'), ('NT', 'terrace'),
+                ('PtS', 'step'), ('HS', 'step'), ('X', None)]
+    # (name, species in the order the reaction lists them)
+    rx_species = [('ads_T', ['H2', 'PtT', 'HT']), ('ads_S', ['H2', 'PtS', 'HS']),
+                  ('hop_alternating', ['HT', 'PtS', 'HS', 'PtT']), ('hop_grouped', ['HT', 'PtT', 'HS', 'PtS']),
+                  ('hop_grouped_rev', ['HS', 'PtS', 'PtT', 'HT']), ('terrace_only', ['HT', 'NT', 'PtT']),
+                  ('all_four', ['N2', 'NT', 'PtT', 'PtB', 'PtS', 'HS', 'H2'])]
+    inter = [('HT', 'NT'), ('HS', 'HS'), ('NT', 'HT')]
+    for variant in ('species, reactions and interactions', 'species only', 'species and reactions'):
+        I = new_interp(repo)
+        built = []
+        for cname in set(kinds.values()):
+            def stub(I_, fr, args, kwargs, cname=cname):
+                o = Obj('phase#%d' % len(built), attrs=dict(kwargs))
+                o.attrs['__class__'] = cname
+                built.append(o)
+                return o
+            I.opaque_classes['pmutt.omkm.phase.' + cname] = stub
+        sp = {}
+        for nm, ph in sp_phase:
+            sp[nm] = Obj(nm, attrs={'name': nm, 'phase': ph, 'elements': DictV({'H': C(1)})})
+        nophase = Obj('Y', attrs={'name': 'Y', 'elements': DictV({'H': C(1)})})
+        nophase.missing.add('phase')
+        rx = []
+        for nm, members in rx_species:
+            r = Obj(nm, attrs={'name': nm})
+            r.opaque_methods['get_species'] = (lambda I_, obj, a, k, members=members:
+                                               DictV({x: sp[x] for x in members}))
+            r.opaque_params['get_species'] = ('include_TS', 'key')
+            rx.append(r)
+        li = [Obj('int%d' % i, attrs={'name_i': a_, 'name_j': b_}) for i, (a_, b_) in enumerate(inter)]
+        data = ListV([DictV({'name': ph, 'phase_type': kinds[ph], 'note': 'note of ' + ph})
+                      for ph in ('gas', 'bulk', 'terrace', 'step')])
+        kw = {'phases_data': data, 'species': ListV(list(sp.values()) + [nophase])}
+        if 'reactions' in variant:
+            kw['reactions'] = ListV(rx)
+        if 'interactions' in variant:
+            kw['interactions'] = ListV(li)
+        out = I.call_function(m, fn, [], kw)
+        if not (isinstance(out, ListV) and len(out) == 4 and all(isinstance(x, Obj) for x in out.items)):
+            run.fail('REF.organize', 'io.omkm.organize_phases', 'phases built [%s]' % variant,
+                     '[%s] four phase descriptions must give four phases, got %s' % (variant, show(out, 120)), m, fn)
+            continue
+        for ph, po in zip(('gas', 'bulk', 'terrace', 'step'), out.items):
+            def names(v):
+                if v is None:
+                    return []
+                return [getattr(x, 'name', x) for x in v.items] if isinstance(v, ListV) else v
+            got_sp = names(po.attrs.get('species'))
+            want_sp = [nm for nm, p_ in sp_phase if p_ == ph]
+            got_rx = names(po.attrs.get('reactions'))
+            want_rx = [nm for nm, mem in rx_species if any(dict(sp_phase)[x] == ph for x in mem)] \
+                if 'reactions' in variant else []
+            got_li = names(po.attrs.get('interactions'))
+            want_li = ['int%d' % i for i, (a_, b_) in enumerate(inter) if dict(sp_phase)[a_] == ph] \
+                if 'interactions' in variant else []
+            ok = po.attrs.get('__class__') == kinds[ph] and I.plain(po.attrs.get('name')) == ph and \
+                I.plain(po.attrs.get('note')) == 'note of ' + ph
+            run.check(ok, 'REF.organize', 'io.omkm.organize_phases', 'phase data [%s] %s' % (variant, ph),
+                      '[%s] phase %s is built as %s with name %s, note %s' % (variant, ph, po.attrs.get('__class__'),
+                                                                               show(po.attrs.get('name')),
+                                                                               show(po.attrs.get('note'))), m, fn)
+            run.check(got_sp == want_sp, 'REF.organize', 'io.omkm.organize_phases', 'species of phase [%s] %s'
+                      % (variant, ph), '[%s] phase %s receives species %s, its species are %s' % (variant, ph, got_sp,
+                                                                                                  want_sp), m, fn,
+                      sample='organize_phases: phase %s <- species %s' % (ph, want_sp) if variant.endswith('interactions')
+                      else None)
+            run.check(got_rx == want_rx, 'REF.organize', 'io.omkm.organize_phases', 'reactions of phase [%s] %s'
+                      % (variant, ph), '[%s] phase %s receives reactions %s; the reactions its species take part in are '
+                      '%s' % (variant, ph, got_rx, want_rx), m, m.functions.get('get_reactions_phases') or fn,
+                      sample='organize_phases: phase %s <- reactions %s' % (ph, want_rx)
+                      if variant.endswith('interactions') else None)
+            run.check(got_li == want_li, 'REF.organize', 'io.omkm.organize_phases', 'interactions of phase [%s] %s'
+                      % (variant, ph), '[%s] phase %s receives interactions %s, expected %s' % (variant, ph, got_li,
+                                                                                                want_li), m, fn)
+
+
 def check(run, repo):
     run.explanation = (
         'Decidable clauses of C07 by abstract interpretation: (a) _assign_yaml_val for every kind of option value '
@@ -406,7 +492,9 @@ def check(run, repo):
         'all sections are present, nothing crashes when collections are omitted; (d) phases of every class built '
         'without species do not share their species list, and every way of adding species (constructor, setter, '
         'append, extend) lists them once with .phase pointing at the owner, every way of removing (by name, by index, '
-        'clear) leaves exactly the rest, the element set following, a coexisting phase untouched; (e) the species, phase, reaction, BEP and '
+        'clear) leaves exactly the rest, the element set following, a coexisting phase untouched; organize_phases hands each '
+        'phase constructor exactly its species, every reaction one of its species takes part in (whatever the order of '
+        'the species in the reaction) and the interactions of its species; (e) the species, phase, reaction, BEP and '
         'interaction emitters are interpreted over abstract strings / dictionaries and every coefficient, bound, name '
         'and converted quantity is compared with the object (see emitters).')
     run.assumptions = ['yaml.dump is an uninterpreted serialiser that receives the data checked here',
@@ -418,6 +506,7 @@ def check(run, repo):
     reactor_yaml(run, repo)
     file_assembly(run, repo)
     phases_independent(run, repo)
+    organize(run, repo)
     from .c07b import emitters
     emitters(run, repo)
     run.floor('C07 obligations', run.obligations, 120)
